@@ -95,7 +95,7 @@ def mk_probe(case: Case):
 
 
 class Input:
-    __slots__ = ("cd", "caller", "origin", "value", "balances", "source", "cd2", "caller2", "origin2", "value2")
+    __slots__ = ("cd", "caller", "origin", "value", "balances", "source", "cd2", "caller2", "origin2", "value2", "tape")
 
     def describe(self):
         return dict(cd=[hex(x) for x in self.cd], caller=hex(self.caller), origin=hex(self.origin), value=hex(self.value),
@@ -189,6 +189,18 @@ def run_reference(case: Case, inp: Input, creates, step_budget=200_000):
         return 0xDEAD0000 + k
 
     ev = refevm.EVM(W, origin=inp.origin, newaddr=newaddr, step_budget=step_budget)
+    if getattr(case, "foundry", False):
+        import foundry
+
+        foundry.Foundry(ev, tape=list(getattr(inp, "tape", None) or []))
+        try:
+            ok, ret, kind = ev.call(case.target, inp.caller, inp.value, bytes(4) + b"".join(x.to_bytes(32, "big") for x in inp.cd),
+                                    transfer=False, static=case.static)
+        except foundry.TestFailed as e:
+            return dict(ok=False, ret=b"", kind="test-failed", world=W, evm=ev, first=None, requested=state["k"], script=script, why=e.why)
+        except foundry.AssumeRejected:
+            return dict(ok=False, ret=b"", kind="assume-rejected", world=W, evm=ev, first=None, requested=state["k"], script=script)
+        return dict(ok=ok, ret=ret, kind=kind, world=W, evm=ev, first=(ok, ret, kind), requested=state["k"], script=script)
     ok, ret, kind = ev.call(case.target, inp.caller, inp.value, bytes(4) + b"".join(x.to_bytes(32, "big") for x in inp.cd),
                             transfer=False, static=case.static)
     first = (ok, ret, kind)
@@ -226,8 +238,10 @@ def status_of(p):
 def compare_path(case, p, vals, keys, ref, res):
     """compare one admitting path's reported end state (evaluated) with the reference.  Returns a
     difference description or None."""
-    want_status = "ok" if ref["ok"] else ("revert" if ref["kind"] == "revert" else "halt")
+    want_status = "ok" if ref["ok"] else ("revert" if ref["kind"] == "revert" else "failcheat" if ref["kind"] == "test-failed" else "halt")
     got_status = status_of(p)
+    if want_status == "failcheat" and got_status == "failcheat":
+        return None  # a failed vm.assert* ends the test; no end state to compare
     if got_status != want_status:
         return dict(field="status", got=f"{got_status} ({p.error}: {p.errmsg})", want=f"{want_status} ({ref['kind']})")
     got = dict(zip(keys, vals))
@@ -445,6 +459,31 @@ def diff_case(case: Case, rng, res, n_random=4, n_models=2, unknown_p=0.0, recor
         for fk in anyref["evm"].tr["frames"]:
             res["features"]["frame:%s/%s" % fk] += 1
         res["counters"]["evaluations"] += 1
+        if anyref["kind"] == "assume-rejected":
+            # vm.assume(false) on this input: no reported path may admit it
+            res["counters"]["inputs_rejected_by_assume"] += 1
+            live_adm = [(p, k, v) for (p, k, v) in admitting if not p.stuck]
+            if live_adm and judge_c01:
+                p = live_adm[0][0]
+                res["violations"].append(dict(prop="C13", what="a path admits an input that vm.assume excludes", key="assume-not-restricting", case=case.describe(), input=inp.describe(),
+                                              path_error=p.error, unknown_p=unknown_p))
+            continue
+        if anyref["kind"] == "test-failed":
+            # a failed vm.assert*: some FailCheatcode path must admit the input.  halmos does not add the asserted
+            # relation to the continuing path (an over-approximation the property does not forbid: the failure is
+            # reported for exactly the inputs of the failing branch), so the other admitting paths are not judged.
+            res["counters"]["inputs_failing_an_assert"] += 1
+            fails = [p for (p, k, v) in admitting if not p.stuck and status_of(p) == "failcheat"]
+            if fails:
+                res["counters"]["failing_inputs_reported_by_failcheat_path"] += 1
+                res["counters"]["unjudged_continuations_past_failed_assert"] += len(admitting) - len(fails)
+            elif any(p.stuck for (p, k, v) in admitting) or flagged:
+                res["counters"]["failing_inputs_excused_stuck_or_bounded"] += 1
+            elif judge_c01:
+                res["violations"].append(dict(prop="C13", what="an input for which a vm.assert* relation is false is not reported by any FailCheatcode path", key="assert-failure-not-reported",
+                                              case=case.describe(), input=inp.describe(), why=str(anyref.get("why"))[:200],
+                                              paths=[dict(error=p.error, stuck=p.stuck) for (p, k, v) in admitting][:20], unknown_p=unknown_p))
+            continue
         if not admitting:
             res["counters"]["inputs_uncovered"] += 1
             if flagged:
